@@ -145,9 +145,10 @@ class Gen:
         dev = srcs[0].dev if srcs else self.dev
         graph = srcs[0].graph if srcs else self.graph
         if f == "copy":
-            dev = args[1]
+            dev = args[1] if len(args) > 1 else self.dev
         lazy = len(w) > 2 and w[2] in ("devmix", "tensor-err")
-        rnd = f.startswith("random::") or any(s.random for s in srcs)
+        rnd = f.startswith("random::") or any(s.random for s in srcs) or \
+            (f == "dropout" and str(args[2]) != "0" and float(args[1]) not in (0.0, 1.0))
         v = Var(name, dims, b, dev, graph, n=n, lazy=lazy or any(s.lazy for s in srcs), random=rnd,
                 intval=intval and all(s.intval for s in srcs))
         self.vars[name] = v
@@ -384,7 +385,7 @@ class Gen:
             return self.let(f, [a.name, r.choice(self.devs)], intval=iv)
         if f == "dropout":
             a = self.pick_var()
-            rate, en = r.choice([(0, 1), (1, 1), (0.5, 0), (0, 0), (1, 0)])
+            rate, en = r.choice([(0, 1), (1, 1), (0.5, 0), (0, 0), (1, 0), (0.5, 1)])
             return self.let(f, [a.name, rate, en])
         return None
 
@@ -421,11 +422,15 @@ class Gen:
                 return self.let(f, [a.name, a.name, d])
             return self.let("softmax_cross_entropy", [a.name, "I:0", d])
         if kind == "bigaxis":
-            f = r.choice(["flip", "sum", "max", "logsumexp", "softmax", "mean", "split", "slice", "pick", "concat"])
-            d = r.choice([8, 2**32 - 1, 2**31, 255])
+            f = r.choice(["flip", "sum", "max", "logsumexp", "softmax", "mean", "split", "slice", "pick", "concat", "broadcast",
+                          "slice", "split", "pick", "flip", "sum"])
+            d = r.choice([8, 9, 2**32 - 1, 2**31, 255])
             args = {"split": [a.name, d, 1], "slice": [a.name, d, 0, 1], "pick": [a.name, "I:0", d],
-                    "concat": ["V:" + a.name, d]}.get(f, [a.name, d])
-            return self.let(f, args)
+                    "concat": ["V:" + a.name, d], "broadcast": [a.name, d, r.choice([1, 2])]}.get(f, [a.name, d])
+            v = self.let(f, args)
+            if v is not None:      # an axis beyond the depth is a size-1 axis where the code allows it: then the values must agree too
+                self.emit("force %s" % (v.name if v.n is None else v.name + ".0"))
+            return v
         if kind == "shape":
             f = r.choice(ARITH + ["matmul", "softmax_cross_entropy", "concat", "batch::concat", "conv2d"])
             dims = list(a.dims) + [2] if r.random() < 0.5 else [d + 1 for d in a.dims] or [2]
@@ -612,6 +617,158 @@ def invalid_program(rng, ncalls, devs=("naive", "naive2", "eigen")):
         g.close()
 
 
+def sce_program(rng, B=None):
+    """Dense softmax_cross_entropy with every batch pattern of (x, t) — x possibly straight from a parameter —, the
+    announced batch read by consumers, and operands differing on exactly the reduced axis."""
+    g = Gen(rng)
+    try:
+        B = B or rng.choice([2, 3, 4])
+        dims = [rng.choice([2, 3]) for _ in range(rng.choice([1, 2, 2]))]
+        d = rng.randrange(len(dims))
+        p = g.new_param(dims)
+        xb = g.new_input(dims, B)
+        t1 = g.new_input(dims, 1, lo=0, hi=2)
+        tb = g.new_input(dims, B, lo=0, hi=2)
+        k = 0
+        for x in (p, xb):
+            for t in (t1, tb):
+                if x is None or t is None:
+                    continue
+                k += 1
+                y = g.let("softmax_cross_entropy", [x.name, t.name, d], name="y%d" % k)
+                if y is None:
+                    continue
+                g.emit("force " + y.name)
+                # consumers that read the announced batch
+                m = g.let("batch::mean", [y.name])
+                if m is not None:
+                    g.emit("force " + m.name)
+                nb = max(x.batch, t.batch)
+                sp = g.let("batch::split", [y.name, nb])
+                if sp is not None and sp.n:
+                    g.emit("force %s.%d" % (sp.name, sp.n - 1))
+                c = g.let("batch::concat", ["V:%s,%s" % (y.name, y.name)])
+                if c is not None:
+                    g.emit("force " + c.name)
+                s_ = g.let("batch::sum", [y.name])
+                if s_ is not None:
+                    g.emit("backward " + s_.name)
+                    g.emit("grad " + p.name)
+        # operands that differ on exactly the reduced axis: rejected by both APIs
+        od = list(dims)
+        od[d] += rng.choice([1, 2])
+        o = g.new_input(od, rng.choice([1, B]))
+        if o is not None:
+            g.let("softmax_cross_entropy", [p.name, o.name, d])
+            g.let("softmax_cross_entropy", [o.name, xb.name, d])
+            od1 = list(dims)
+            od1[d] = 1
+            while od1 and od1[-1] == 1:
+                od1.pop()
+            o1 = g.new_input(od1, 1)
+            if o1 is not None:
+                g.let("softmax_cross_entropy", [xb.name, o1.name, d])
+                g.let("softmax_cross_entropy", [o1.name, tb.name, d])
+        g.emit("nops")
+        return g.lines
+    finally:
+        g.close()
+
+
+def device_program(rng):
+    """Programs over several devices on both APIs: copy with the device argument omitted (the default device), copy to a
+    named device, and binary functions whose LEFT operand is a scalar on another device than the right operand."""
+    g = Gen(rng, DEVS)
+    try:
+        d1, d2 = rng.sample(DEVS, 2)
+        g.dev = d1
+        g.emit("dev " + d1)
+        m1 = g.new_input([2, 2], rng.choice([1, 2]))
+        s1 = g.new_input([], 1)
+        p1 = g.new_param([2, 2])
+        g.dev = d2
+        g.emit("dev " + d2)       # d2 is the default device from here on
+        m2 = g.new_input([2, 2], 1)
+        s2 = g.new_input([], 1)
+        # copy(x): lands on the default device, usable with a default-device operand
+        c = g.let("copy", [m1.name], intval=True)
+        if c is not None:
+            g.emit("force " + c.name)
+            z = g.let(rng.choice(["add", "multiply", "matmul", "subtract"]), [c.name, m2.name])
+            if z is not None:
+                g.emit("force " + z.name)
+            z = g.let("concat", ["V:%s,%s" % (m2.name, c.name), rng.choice([0, 1])])
+            if z is not None:
+                g.emit("force " + z.name)
+            # … and not with an operand of the device it came from
+            z = g.let("add", [c.name, m1.name])
+            if z is not None:
+                g.emit("force " + z.name)
+        cp = g.let("copy", [p1.name])
+        if cp is not None:
+            z = g.let("multiply", [cp.name, s2.name])
+            if z is not None:
+                g.emit("force " + z.name)
+                g.emit("backward " + z.name)
+                g.emit("grad " + p1.name)
+        # copy(x, dev)
+        for dv in DEVS:
+            c2 = g.let("copy", [m2.name, dv], intval=True)
+            if c2 is not None:
+                g.emit("force " + c2.name)
+                z = g.let("add", [c2.name, m1.name if dv == d1 else m2.name])
+                if z is not None:
+                    g.emit("force " + z.name)
+        # a scalar LEFT operand living on another device
+        for f in ["add", "subtract", "multiply", "divide", "pow"] + [rng.choice(["op+", "op-", "op*", "op/"])]:
+            for (a, b) in ((s1, m2), (s2, m1), (s1, s2)):
+                z = g.let(f, [a.name, b.name])
+                if z is not None:
+                    g.emit("force " + z.name)
+                    w = g.let("negative", [z.name])
+                    if w is not None:
+                        g.emit("force " + w.name)
+            z = g.let(f, [m2.name, s1.name])
+            if z is not None:
+                g.emit("force " + z.name)
+        g.emit("nops")
+        return g.lines
+    finally:
+        g.close()
+
+
+def conv_program(rng, grid=None):
+    """conv2d / max_pool2d with anisotropic attributes on both APIs, every call also with the two components of each
+    attribute pair swapped (asymmetric operands: one ordering may be accepted, the other rejected)."""
+    g = Gen(rng)
+    try:
+        for _ in range(4 if grid is None else 1):
+            h, w_ = grid[0] if grid else rng.choice([(5, 2), (2, 5), (4, 3), (3, 6), (6, 1)])
+            c = rng.choice([1, 2])
+            x = g.new_input([h, w_] + ([c] if c > 1 else []), rng.choice([1, 2]))
+            kh, kw = grid[1] if grid else rng.choice([(3, 1), (1, 3), (2, 1), (1, 2), (3, 2)])
+            kd = [kh, kw, c, rng.choice([1, 2])]
+            while kd and kd[-1] == 1:
+                kd.pop()
+            k = g.new_input(kd, 1)
+            combos = grid[2] if grid else [(rng.choice([(0, 1), (1, 0), (0, 2), (2, 0), (1, 2)]),
+                                            rng.choice([(1, 2), (2, 1), (1, 3), (3, 1), (2, 3)]),
+                                            rng.choice([(1, 2), (2, 1), (1, 3), (1, 1), (2, 3)])) for _ in range(3)]
+            for (p, s_, d) in combos:
+                for (pp, ss, dd) in (((p[0], p[1]), (s_[0], s_[1]), (d[0], d[1])), ((p[1], p[0]), (s_[1], s_[0]), (d[1], d[0]))):
+                    v = g.let("conv2d", [x.name, k.name, pp[0], pp[1], ss[0], ss[1], dd[0], dd[1]], intval=True)
+                    if v is not None:
+                        g.emit("force " + v.name)
+                    # window = the kernel extents, padding and stride as above
+                    v = g.let("max_pool2d", [x.name, kh if pp == tuple(p) else kw, kw if pp == tuple(p) else kh, pp[0], pp[1], ss[0], ss[1]], intval=True)
+                    if v is not None:
+                        g.emit("force " + v.name)
+        g.emit("nops")
+        return g.lines
+    finally:
+        g.close()
+
+
 def enum_programs(tier):
     """Small-scope enumeration: every function x small argument ranges on a fixed set of operands."""
     heads = ["let a = input S:2,3/1 D:1,2,3,4,5,6", "let b = input S:2,3/2 D:1,2,3,4,5,6,-1,-2,-3,-4,-5,-6",
@@ -638,6 +795,9 @@ def enum_programs(tier):
         calls = [(f, [x, d]) for f in AXIS for d in axes]
         progs.append(prog(calls))
         calls = []
+        for d in (9, 255, 2**32 - 1):
+            calls += [("split", [x, d, 1]), ("broadcast", [x, d, 1]), ("broadcast", [x, d, 2]), ("slice", [x, d, 0, 1]),
+                      ("pick", [x, "I:0", d]), ("softmax_cross_entropy", [x, "I:0", d])]
         for d in axes[:6]:
             for n in (0, 1, 2, 3):
                 calls.append(("split", [x, d, n]))
@@ -661,7 +821,7 @@ def enum_programs(tier):
             calls.append(("pown", [x, k]))
         for k in (0, 0.5, 2):
             calls += [("prelu", [x, k]), ("elu", [x, k])]
-        for rate, en in ((0, 1), (1, 1), (0.5, 0), (0, 0)):
+        for rate, en in ((0, 1), (1, 1), (0.5, 0), (0, 0), (1, 0), (0.5, 1)):
             calls.append(("dropout", [x, rate, en]))
         for sh in ("S:6/1", "S:3,2/1", "S:6/2", "S:2,3/2", "S:1,6/1", "S:7/1", "S:12/1", "S:3,2,2/1", "S:/1", "S:3/1", "S:2,2/1"):
             calls.append(("reshape", [x, sh]))
@@ -700,6 +860,18 @@ def enum_programs(tier):
             calls += [("concat", [cc, d]), ("concat_ptr", [cc, d])]
         calls += [("batch::concat", [cc]), ("batch::concat_ptr", [cc])]
     progs.append(prog(calls))
+    # systematic: SCE batch patterns, devices, anisotropic conv / pool
+    import random as _r
+    rr = _r.Random(20260930)
+    for B in (2, 3, 4):
+        for _ in range(4):
+            progs.append(sce_program(rr, B))
+    for _ in range(12):
+        progs.append(device_program(rr))
+    for hw in ((5, 2), (2, 5), (4, 3), (3, 6)):
+        for kk in ((3, 1), (1, 3), (2, 1), (3, 2)):
+            combos = [(p, s_, d) for p in ((0, 1), (1, 0), (0, 2)) for s_ in ((1, 2), (2, 1), (1, 3)) for d in ((1, 2), (2, 1), (1, 1))]
+            progs.append(conv_program(rr, (hw, kk, combos)))
     return progs
 
 
@@ -767,6 +939,8 @@ def judge_program(lines, impl):
                 where = "@non-default-graph" if g != curgraph else ""
                 bad.append((i, "node-rejects-tensor-accepts" + where, "the Node API rejects the call%s, the Tensor API accepts it (%s)"
                             % (" on a node of a graph that is not the default graph" if where else "", o)))
+            elif "tensor-accepts-devmix" in ow:
+                bad.append((i, "mixed-devices-accepted", "operands living on different devices are accepted by both APIs (%s)" % o))
             elif "tensor-shape" in ow:
                 bad.append((i, "static-shape-differs", "Node::shape() differs from the Tensor API's result shape (%s)" % o))
             elif "tensor-err" in ow:
@@ -1049,6 +1223,12 @@ def composite_streams(rng, tier):
         if f == "softmax_cross_entropy":
             lines.insert(-1, "force t")
         streams.append(lines)
+    # dropout: every (rate, enabled); disabled returns x for EVERY rate, rate 1 enabled returns zeros
+    for rate in (0, 0.5, 1):
+        for en in (0, 1):
+            b = rng.choice([1, 2])
+            data = ",".join(repr(f32(rng.choice([-3e4, -2.5, -1, 0, 0.5, 2, 80, 1e4]))) for _ in range(3 * b))
+            streams.append(["let x = input %s D:%s" % (tok([3], b), data), "let y = dropout x %s %d" % (rate, en), "force x", "force y"])
     return streams
 
 
@@ -1071,6 +1251,8 @@ def run_composites(chk, variant="asan"):
                 break
             if w[0] == "force":
                 got = values_of(o)
+                if got is None and o.startswith("ok random ") and w[1] == "y":
+                    continue          # a random mask: shape checked below
                 if got is None:
                     chk.report("funcs:composite:no-value:" + call_key(lines[-2 if w[1] == "y" else 0]),
                                "%s: no value (%s)" % (l, o[:200]),
@@ -1078,6 +1260,14 @@ def run_composites(chk, variant="asan"):
                     break
                 env[w[1]] = got
         if "y" not in env:
+            # dropout with 0 < rate < 1, enabled: a random mask — the harness reports `ok random <shape>` once both APIs
+            # produced a value of the static shape
+            yl = [l for l in lines if l.startswith("let y = dropout")]
+            yo = [o for l, o in zip(lines, impl) if l == "force y"]
+            if yl and yo and not (yo[0].startswith("ok random ") and "x" in env and
+                                  parse_shape(yo[0].split(" ")[2]) == (env["x"][0], env["x"][1])):
+                chk.report("funcs:composite:" + call_key(yl[0]) + ":no-value", "%s: force y gives `%s`" % (yl[0], yo[0][:200]),
+                           {"family": FAMILY, "harness": HARNESS, "variant": variant, "stateful": True, "lines": lines})
             continue
         call = [l for l in lines if l.startswith("let y =")][0].split(" ")
         f, args = call[3], call[4:]
